@@ -554,6 +554,11 @@ def numbering(ck, rule):
             want_iter = {positions}
             want_p = lambda j: ("elem", iter_term, j)
         w0 = where(fn, e0.node)
+        for num in (s0, s1):
+            # a label number drawn from an iterator the analysis cannot evaluate is not a deviation that can be reported
+            opaque = [x for x in T.subterms(num) if x[0] in ("elem", "call", "mcall", "app") and not (x[0] == "call" and x[1] == "len")]
+            if opaque:
+                raise AnalysisError(f"{w0}: label number on the {name} strand is not in the vocabulary: {T.show(num)[:120]}")
         ck.judge(s0 == want_s0, rule, f"getPositionsWithSiteIds:{name}:first-number", w0,
                  f"first label number on the {name} strand", found=T.show(s0), required=T.show(want_s0))
         ck.judge(T.p_sub(s1, s0) == want_step, rule, f"getPositionsWithSiteIds:{name}:step", w0,
